@@ -146,6 +146,8 @@ class Report:
         for fid, what in self.known_hits:
             print(f"KNOWN-FINDING: property={self.pid} {fid}: {what}", flush=True)
         cov = dict(self.cov)
+        if not cov.get("samples"):
+            cov["samples"] = [{"note": "no case was sampled in this run (replay of a single stored case)"}]
         cov.setdefault("evaluations", self.evaluations)
         cov.setdefault("distinct_nontrivial", len(self.distinct))
         cov.setdefault("rule", "")
@@ -163,7 +165,7 @@ class Report:
         if self.machinery:
             status = 2
             ev["coverage"]["machinery_failures"] = self.machinery[:10]
-        elif self.violations:
+        if self.violations:          # a violation that was found stands, whatever else went wrong in the run
             status = 1
         try:
             jsonschema.validate(ev, SCHEMA)
